@@ -322,7 +322,21 @@ func C04(x *Ctx) {
 				}
 			}
 		}
-		for n := 0; n <= maxPart; n++ {
+		// (a Write call that rotated two segments at once leaves parts that no observable playlist
+		// ever listed: the hole clause needs an observation between any two rotations)
+		multiRot := false
+		for _, r := range h.Rounds {
+			n := 0
+			for _, k := range r.Rotated {
+				if k == "segments" {
+					n++
+				}
+			}
+			if n >= 2 {
+				multiRot = true
+			}
+		}
+		for n := 0; n <= maxPart && !multiRot; n++ {
 			if !seenParts[n] {
 				x.fail("part-hole", "part-hole", "stream %s: part %d was never listed although part %d was", id, n, maxPart)
 				break
